@@ -370,9 +370,30 @@ func runC12(c *Ctx) {
 					prows, err = rowGroupRows(crg, gen.Pick(r, []int{1, 64}))
 				} else {
 					// through the column chunks the converted row group publishes (ColumnChunks(), not Rows())
+					// the first k rows with one reader, the rest with a second one after SeekToRow(k)
+					k := r.Intn(int(crg.NumRows()) + 1)
 					rr := parquet.NewRowGroupRowReader(crg)
-					prows, err = readRowsAll(rr, 64)
+					for len(prows) < k && err == nil {
+						buf := make([]parquet.Row, min(64, k-len(prows)))
+						var m int
+						m, err = rr.ReadRows(buf)
+						for _, row := range buf[:m] {
+							prows = append(prows, row.Clone())
+						}
+						if m == 0 && err == nil {
+							err = fmt.Errorf("ReadRows made no progress at row %d", len(prows))
+						}
+					}
 					rr.Close()
+					if err == nil || (errors.Is(err, io.EOF) && len(prows) == k) {
+						rr2 := parquet.NewRowGroupRowReader(crg)
+						var tail []parquet.Row
+						if err = rr2.SeekToRow(int64(k)); err == nil {
+							tail, err = readRowsAll(rr2, 64)
+						}
+						rr2.Close()
+						prows = append(prows, tail...)
+					}
 				}
 				if err != nil {
 					rerr = err
